@@ -71,7 +71,10 @@ def parse_regex(src):
         elif c == '$':
             atom = ('eol',)
             i += 1
-        elif c in '()[]{}.':
+        elif c == '.':
+            atom = ('any',)
+            i += 1
+        elif c in '()[]{}':
             raise Unsupported('regex construct %r in %r' % (c, src))
         else:
             atom = ('lit', ord(c))
@@ -105,6 +108,8 @@ def atom_test(ctx, atom, chars, pos):
         return char_is_whitespace(c)
     if k == 'nws':
         return ctx.m.bnot(char_is_whitespace(c))
+    if k == 'any':
+        return ctx.m.bnot(ctx.m.eq(c, Int(0x0A, 'char')))      # `.` without the s flag: any character but \n
     raise Unsupported('atom ' + k)
 
 
